@@ -63,6 +63,8 @@ if res["demo_clean_rc"] == 0 and res["demo_patched_rc"] == 1:
             "confirmed": {"demo_on_clean_tree_rc": 0, "demo_with_patch_rc": 1,
                           "tests": "see seeded/TESTS.md (patches applied together in a scratch worktree, full suite vs BASELINE stable_pass)"},
             "ran": [f"git -C /repo apply seeded/{sid}/patch.diff; ./check {c} --tier quick; git -C /repo checkout -- ." for c in res["checks"]],
+            "ran_against": f"a scratch git worktree of /repo ({REPO}, same commit as /repo HEAD at the time, selected with VERIF_REPO) with the patch applied and reverted afterwards; "
+                           "'ran' is the equivalent command sequence against /repo itself",
             "result": res["checks"], "detected": res["detected"]}
     (d / "meta.json").write_text(json.dumps(meta, indent=1) + "\n")
 else:
